@@ -528,6 +528,9 @@ class Interp:
                 return Z(t, z3.Concat(*us) if len(us) > 1 else us[0])
             if o.kind == "obj" and t.kind == "ref":
                 return self.freeze(st, v)
+        if isinstance(v, Opaque) and t.kind == "str":
+            # an unknown value used where a string is expected (e.g. pathlib's `p.name`): one fixed unknown string per value
+            return Z(t, z3.Const("strof!" + v.tag, Str))
         if isinstance(v, DDList) and t.kind in ("seq", "dyn"):
             z = self.dd_seq(st, v)
             return z if t.kind == "seq" and t.args[0].kind == "dyn" else self.to_z(st, z, t)
